@@ -30,12 +30,6 @@ Definition lookup_entries (U : list N) (kf : row -> ikey) (ix : index) (rows : N
 Definition commit_edits (U : list N) (e : cevent) : list (N * option row) :=
   flat_map (fun k => if orow_eqb (get U (e_before e) k) (get U (e_after e) k) then [] else [(k, get U (e_after e) k)]) U.
 
-Definition apply_edits (kf : row -> ikey) (s : tstate) (eds : list (N * option row)) : tstate :=
-  fold_left (fun s ed => wrun kf (edit_ops (t_rows s) (fst ed) (snd ed)) s) eds s.
-
-Definition init_state (kf : row -> ikey) (rows : list (N * cell * cell)) : tstate :=
-  wrun kf (map (fun r => let '(k, a, b) := r in WInsert k (a, b)) rows) empty_state.
-
 Definition model_obs (i : input) : obs :=
   let U := i_U i in
   let '(os, log, w) := run U (i_sched i) (world0 (i_init i) (i_autos i)) in
